@@ -183,7 +183,7 @@ Proof. exact new_model_v0_ignores_modes. Qed.
 Print Assumptions C20_mode_v0_refuted.
 
 Example C20_nonvacuous_mode :
-  steps ["auto"; "slow"; "fast"] (Some "auto") [1; 1; 1; -2; -5] = Some "slow".
+  steps ["auto"; "slow"; "fast"] (Some "auto") [1; 1; 1; -2; -5] = Some "fast".
 Proof. reflexivity. Qed.
 
 (* ================= enter/leave ================= *)
